@@ -164,6 +164,9 @@ func runCraft(c *choice.Src, o engine.Opt, out *engine.Out) {
 	for j := 1; j <= n; j++ {
 		if evalPoly(a, int64(j)).Sign() == 0 {
 			a[0].Add(a[0], big.NewInt(1)).Mod(a[0], curve.R)
+			if a[0].Sign() == 0 {
+				a[0].SetInt64(1)
+			}
 			j = 0
 		}
 	}
